@@ -223,6 +223,8 @@ impl<'v> StarlarkValue<'v> for Partial<'v> {
                         args: args.0.args,
                         kwargs: args.0.kwargs,
                     });
+                    // The call of the wrapped function is a call (a tick) of its own.
+                    eval.report_forward_progress()?;
                     self.func
                         .to_value()
                         .invoke_with_loc(Some(rust_loc!()), &params, eval)
